@@ -855,15 +855,15 @@ func v05RunHistory(x *vexp.X, g v05Geom, mask0, rot int, hist []int) vexp.Result
 // (B) writer level: the three writers driven directly through their exported API
 
 type v05WParams struct {
-	name                             string
-	pre, samples, fps                int
-	sfDiv, sfOff                     int
-	rows, cols, nchan, row, col      int
-	chIdx, chNum                     int
-	timebase                         float64
-	chanName, srcName                string
-	tsOff                            time.Time
-	nbases                           int
+	name                        string
+	pre, samples, fps           int
+	sfDiv, sfOff                int
+	rows, cols, nchan, row, col int
+	chIdx, chNum                int
+	timebase                    float64
+	chanName, srcName           string
+	tsOff                       time.Time
+	nbases                      int
 }
 
 func v05WriterParams() []v05WParams {
